@@ -12,7 +12,7 @@ import z3
 
 from vf import runner
 
-ROOT = "/verif"
+ROOT = runner.ROOT
 ALPHABET = {  # one representative per character class
     "squote": "'", "dquote": '"', "backslash": "\\", "lf": "\n", "cr": "\r", "nul": "\x00", "lbrace": "{", "rbrace": "}",
     "percent": "%", "hash": "#", "space": " ", "letter_n": "n", "letter_x": "x", "letter_a": "a", "digit": "0",
@@ -47,7 +47,7 @@ def py(code, timeout=120):
 PROBE_LIB = r'''
 import sys, json, warnings
 warnings.simplefilter("ignore")
-sys.path.insert(0, "/verif")
+sys.path.insert(0, __VF_ROOT__)
 from vf.hprelude import *
 from vf import hlib
 FIRED = []
@@ -205,7 +205,7 @@ def behaves(position, s):
 
 def real_behaviour(pairs):
     """[(position, s)] -> [None | description] evaluated on the real builder in a fresh interpreter"""
-    code = PROBE_LIB + "\nimport json\npairs = json.loads(%r)\nprint('VFOUT ' + json.dumps([behaves(p, s) for p, s in pairs]))\n" % json.dumps(pairs)
+    code = PROBE_LIB.replace('__VF_ROOT__', repr(runner.ROOT)) + "\nimport json\npairs = json.loads(%r)\nprint('VFOUT ' + json.dumps([behaves(p, s) for p, s in pairs]))\n" % json.dumps(pairs)
     rc, out, err = py(code, timeout=600)
     for ln in out.splitlines():
         if ln.startswith("VFOUT "):
@@ -215,7 +215,7 @@ def real_behaviour(pairs):
 
 def extract_templates():
     """classify every position as raw / repr / by-reference from the generated source of the current tree"""
-    code = PROBE_LIB + r'''
+    code = PROBE_LIB.replace('__VF_ROOT__', repr(runner.ROOT)) + r'''
 out = {}
 for pos in %r:
     res = {}
